@@ -61,6 +61,10 @@ def cases(tier, seed):
             for e1 in ENVS:
                 for e2 in ENVS:
                     out.append({"kind": "envs", "out": out_pkg, "postprocess": pp, "first_env": e1, "second_env": e2})
+    # every representative document: a non-force re-run straight after a forced generation is a successful no-op
+    for dn in docs.names():
+        for pp in (False, True):
+            out.append({"kind": "noop-doc", "doc": dn, "postprocess": pp})
     for dr in DRIFTS:
         for f in ("client.py", "models/pet.py", "endpoints/pets.py", "core/http_transport.py", "mocks/mock_client.py", "__init__.py"):
             out.append({"kind": "drift", "drift": dr, "file": f})
@@ -112,6 +116,29 @@ def apply_drift(kind, path):
     with open(path, "w", newline="") as f:
         f.write(new)
     return True
+
+
+def run_noop_doc(case):
+    doc = docs.get(case["doc"], os.environ.get("VERIF_REPO", "/repo"))
+    label = f"noop-doc|{case['doc']}|postprocess={case['postprocess']}"
+    found = []
+    with sandbox.scratch("c09n-") as d:
+        root = os.path.join(d, "proj")
+        spec_path = os.path.join(d, "spec.json")
+        files, err = sandbox.generate(doc, root, output_package="cli", force=True, no_postprocess=not case["postprocess"], spec_path=spec_path)
+        if err is not None:
+            return {"findings": [], "outcome": "noop-doc:rejected", "nontrivial": None}
+        before = sandbox.snapshot(root)
+        files, err = sandbox.generate(doc, root, output_package="cli", force=False, no_postprocess=not case["postprocess"], spec_path=spec_path, reset=False)
+        after = sandbox.snapshot(root)
+        if err is not None:
+            found.append({"sig": "C09|noop|re-run without force straight after a forced generation fails [embedded]", "key": label,
+                          "msg": f"{type(err).__name__}: {str(err)[:150]} | {label}"})
+        if before != after:
+            ch = sorted(k for k in set(before) | set(after) if before.get(k) != after.get(k))
+            found.append({"sig": "C09|noop|re-run without force touches the tree", "key": label, "msg": f"{ch[:5]} | {label}"})
+    return {"findings": found, "evals": 2, "nontrivial": label, "outcome": "noop-doc:" + ("finding" if found else "ok"), "states": 2, "transitions": 2, "validated": 2,
+            "sample": {"case": label}}
 
 
 def run_drift(case):
@@ -411,4 +438,6 @@ def run_case(case):
         return run_envs(case)
     if case["kind"] == "drift":
         return run_drift(case)
+    if case["kind"] == "noop-doc":
+        return run_noop_doc(case)
     return run_hist(case)
